@@ -31,6 +31,9 @@ type compiler struct {
 
 	// identities whose bases are being compiled right now, likewise
 	identitiesInProgress map[*Identity]bool
+
+	// imported modules whose identities are compiled
+	importsDone map[*Module]bool
 }
 
 func (c *compiler) module(y *Module) error {
@@ -61,6 +64,15 @@ func (c *compiler) module(y *Module) error {
 }
 
 func (c *compiler) compileImport(m *Module) error {
+	// once per module: with a module imported along many paths (layers of modules that each
+	// import all of the next layer) the number of paths doubles with every layer
+	if c.importsDone[m] {
+		return nil
+	}
+	if c.importsDone == nil {
+		c.importsDone = make(map[*Module]bool)
+	}
+	c.importsDone[m] = true
 	for _, i := range m.identities {
 		if err := c.compile(i); err != nil {
 			return err
